@@ -4,6 +4,8 @@ C08 — Append preserves history (header re-serialisation part).
 import SevenZ.Lemmas.FilesInfo
 import SevenZ.Model.Assign
 import SevenZ.Lemmas.Assign
+import SevenZ.Lemmas.AssignAppend
+import SevenZ.Props.C06
 namespace SevenZ.C08
 open SevenZ SevenZ.Impl
 
@@ -29,6 +31,39 @@ theorem append_keeps_assignment (flags flags' : List Bool) (nums nums' sizes siz
     (hnew : Impl.assign (flags ++ flags') (nums ++ nums') (sizes ++ sizes') (crcs ++ crcs') = some r') :
     r'.take flags.length = r :=
   assignGo_prefix nums sizes crcs nums' sizes' crcs' flags' flags 0 0 0 0 r hbase r' hnew
+
+
+/-- **The format's assignment under an append, exactly.**  For EVERY base header the format can
+    read (any files, any folders, sizes, digests) whose sub-streams are all given out, and one
+    more folder with `n2` sub-streams and any files behind it: the assignment of the extended
+    header exists and is the base's assignment, unchanged and in order, followed by the new
+    folder's members — existence and exact value, not only prefix stability. -/
+theorem append_assignment_exact (files1 files2 : List Spec.SFile) (nums : List Nat) (n2 : Nat) (sizes1 sizes2 : List Nat)
+    (crcs1 crcs2 : List (Option Nat)) (M1 : List Spec.SMember)
+    (hbase : Spec.assign files1 nums sizes1 crcs1 = .ok M1) (hne : nums ≠ [])
+    (hcap : nums.sum = sizes1.length) (hl1 : sizes1.length = crcs1.length)
+    (hl2 : sizes2.length = crcs2.length) (hc2 : (files2.filter (fun f => !f.emptyStream)).length = sizes2.length)
+    (hn2 : sizes2.length = n2) :
+    Spec.assign (files1 ++ files2) (nums ++ [n2]) (sizes1 ++ sizes2) (crcs1 ++ crcs2) =
+      .ok (M1 ++ folderMembers nums.length files2 0 sizes2 crcs2) :=
+  assign_append files1 files2 nums n2 sizes1 sizes2 crcs1 crcs2 M1 hbase hne hcap hl1 hl2 hc2 hn2
+
+/-- ... and py7zr's cursor follows: on the extended header it gives the old members what it gave
+    them before and the new members their place in the appended folder -/
+theorem append_cursor_exact (files1 files2 : List Spec.SFile) (nums : List Nat) (n2 : Nat) (sizes1 sizes2 : List Nat)
+    (crcs1 crcs2 : List (Option Nat)) (M1 : List Spec.SMember)
+    (hbase : Spec.assign files1 nums sizes1 crcs1 = .ok M1) (hne : nums ≠ [])
+    (hcap : nums.sum = sizes1.length) (hl1 : sizes1.length = crcs1.length)
+    (hl2 : sizes2.length = crcs2.length) (hc2 : (files2.filter (fun f => !f.emptyStream)).length = sizes2.length)
+    (hn2 : sizes2.length = n2) :
+    Impl.assign ((files1 ++ files2).map (·.emptyStream)) (nums ++ [n2]) (sizes1 ++ sizes2) (crcs1 ++ crcs2) =
+      some ((M1 ++ folderMembers nums.length files2 0 sizes2 crcs2).map (·.stream)) :=
+  C06.assign_refines_spec _ _ _ _ _
+    (assign_append files1 files2 nums n2 sizes1 sizes2 crcs1 crcs2 M1 hbase hne hcap hl1 hl2 hc2 hn2)
+
+example : (Spec.assign ([{ emptyStream := false }, { emptyStream := true }] ++ [{ emptyStream := false }, { emptyStream := false }])
+    ([1] ++ [2]) ([5] ++ [7, 9]) ([some 1] ++ [none, some 3])).toOption.map (fun l => l.map (·.stream)) =
+    some [some (0, 0, 5, some 1), none, some (1, 0, 7, none), some (1, 7, 9, some 3)] := by decide +kernel
 
 /-- appending a folder never moves an earlier member: the cursor's assignment for the old
     members of a base archive is a prefix of the assignment after one more folder with one
